@@ -1037,3 +1037,152 @@ def no_partial_key_memo(chk, rule, rel, cname, floor=1):
     if n == 0:
         chk.ob(rule, '%s/no-memoising-handlers' % cname, True, rel, '')
     chk.floor(rule, floor, 'scan')
+
+
+# ---------------------------------------------------------------------------------------------------------------------
+# grammar actions: whether a part that is present reaches the tree does not depend on which *other* parts are present
+PRESENCE_AUDIT = {
+    # (lhs, rhs tuple, dropped part index, deciding part index): reason
+}
+
+
+def parts_reach_the_tree_whenever_present(chk, rule, gs_list, only_lhs=None, floor=0, carries=None):
+    """For every production whose action builds its value from optional parts (a part is optional when its abstract
+    value includes None): the term of the action is evaluated for every combination absent / present of those parts
+    (at most 6 of them); a part that reaches the value in one combination where it is present must reach it in all of
+    them."""
+    import itertools
+    from vt.shapes import eval_presence, roots_in, Mark, ScenarioError
+    chk.doc(rule, 'grammar actions, evaluated under every absent/present combination of their optional parts (the parts '
+                  'whose value can be None): a part that is placed in the tree in some combination where it is present is '
+                  'placed in the tree in every combination where it is present - `p[3] and p[3][1] + (p[4] and p[4][1] '
+                  'or [])` loses p[4] exactly when p[3] is absent')
+    n = 0
+    seen = set()
+    for dname, gs in gs_list:
+        for p in gs.d.prods:
+            if only_lhs is not None and p.lhs not in only_lhs:
+                continue
+            key = (p.lhs, tuple(p.rhs), p.fn.name if p.fn is not None else None)
+            if key in seen or p not in gs.terms:
+                continue
+            seen.add(key)
+            term = gs.terms[p]
+            opt = [i for i in range(1, len(p.rhs) + 1) if p.rhs[i - 1] in gs.av and gs.av[p.rhs[i - 1]].none]
+            if not opt or len(opt) > 6:
+                continue
+            n += 1
+            reach = {}   # part -> {scenario: bool}
+            for combo in itertools.product((False, True), repeat=len(opt)):
+                env = dict((i, Mark(i)) for i in range(1, len(p.rhs) + 1))
+                for i, present in zip(opt, combo):
+                    if not present:
+                        env[i] = None
+                try:
+                    v = eval_presence(term, env)
+                except ScenarioError:
+                    continue
+                roots = roots_in(v)
+                for i in range(1, len(p.rhs) + 1):
+                    if env[i] is not None and (carries is None or carries(gs, p.rhs[i - 1])):
+                        reach.setdefault(i, {})[combo] = i in roots
+            problems = []
+            for i, m in sorted(reach.items()):
+                if any(m.values()) and not all(m.values()):
+                    lost = sorted((c for c, ok in m.items() if not ok), key=lambda c: (list(c).count(False), c))
+                    others = [j for j, pr in zip(opt, lost[0]) if j != i and not pr]
+                    if any((p.lhs, tuple(p.rhs), i, j) in PRESENCE_AUDIT for j in others):
+                        continue
+                    problems.append('%s (p[%d]) is left out of the value when %s absent' % (
+                        p.rhs[i - 1], i, ' and '.join('%s (p[%d])' % (p.rhs[j - 1], j) for j in others) + (
+                            ' are' if len(others) > 1 else ' is') if others else 'another part is'))
+            chk.ob(rule, '%s <- %s' % (p.lhs, ' '.join(p.rhs)), not problems,
+                   '%s:%s' % ('pysmi/parser/smi.py', p.fn.lineno if p.fn is not None else 0), '; '.join(problems))
+    if floor:
+        chk.floor(rule, floor, 'productions with optional parts')
+    return n
+
+
+# ---------------------------------------------------------------------------------------------------------------------
+# components asked per module answer from their configuration alone
+def lookups_leave_no_trace(chk, rule, classes, entry, what, audited=None, floor=0):
+    """no method reachable from `entry` of the given (file, class) pairs writes an instance attribute"""
+    from rules.C12 import writes_in, reachable_methods
+    audited = audited or {}
+    chk.doc(rule, '%s: the methods reachable from %s() write no instance attribute, so the answer for one module does '
+                  'not depend on which modules were asked for before (a remembered error, a consumed iterator or a '
+                  'cache keyed by less than the question changes the answer for every later module of the same '
+                  'compile() call and of later calls)' % (what, entry))
+    n = 0
+    for rel, cname in classes:
+        if rel not in chk.model.modules:
+            continue
+        ci = chk.model.cls(rel, cname)
+        for mname, (owner, fn) in sorted(reachable_methods(ci, entry).items()):
+            ws = writes_in(fn)
+            n += 1
+            bad = [(a, k, node) for a, k, node in ws if (cname, a) not in audited]
+            chk.ob(rule, '%s.%s/no-instance-writes' % (cname, mname), not bad, where(owner.mod, fn),
+                   '%s() writes self.%s (%s): what this component answers for a module depends on what it was asked '
+                   'before' % (mname, bad[0][0], norm(bad[0][2])[:60]) if bad else '')
+    if floor:
+        chk.floor(rule, floor, 'methods reachable from %s' % entry)
+
+
+# ---------------------------------------------------------------------------------------------------------------------
+# itertools.groupby merges *adjacent* equal keys only
+def groupby_input_is_sorted(chk, rule, rels, what):
+    """every call of itertools.groupby (however imported) gets, as its first argument, a sorted(...) call or a local
+    whose only assignment is one - with the same key function when one is given.  Expected count on this repository:
+    zero calls; the obligation per file makes the scan visible."""
+    chk.doc(rule, '%s: itertools.groupby groups adjacent items only - a call whose input is not sorted by the grouping '
+                  'key (sorted(x, key=k) directly or through a local assigned once) yields several groups for one key, '
+                  'and a dict built from them keeps only the last (no such call exists today; every file is scanned)' % what)
+    def scan(tree):
+        aliases = set()
+        for n in ast.walk(tree):
+            if isinstance(n, ast.ImportFrom) and n.module == 'itertools':
+                for a in n.names:
+                    if a.name == 'groupby':
+                        aliases.add(a.asname or a.name)
+        bad = []
+        for n in ast.walk(tree):
+            if isinstance(n, ast.Call) and ((isinstance(n.func, ast.Name) and n.func.id in aliases) or
+                                            norm(n.func) in ('itertools.groupby',)):
+                arg = n.args[0] if n.args else None
+                key = n.args[1] if len(n.args) > 1 else next((k.value for k in n.keywords if k.arg == 'key'), None)
+                src = arg
+                if isinstance(arg, ast.Name):
+                    fn = n
+                    while fn is not None and not isinstance(fn, (ast.FunctionDef, ast.Module)):
+                        fn = getattr(fn, '_parent', None)
+                    asg = [s for s in ast.walk(fn) if isinstance(s, ast.Assign) and len(s.targets) == 1 and
+                           isinstance(s.targets[0], ast.Name) and s.targets[0].id == arg.id] if fn is not None else []
+                    src = asg[0].value if len(asg) == 1 else None
+                ok = isinstance(src, ast.Call) and norm(src.func) == 'sorted'
+                if ok and key is not None:
+                    skey = next((k.value for k in src.keywords if k.arg == 'key'), None)
+                    ok = skey is not None and norm(skey) == norm(key)
+                if not ok:
+                    bad.append(n)
+        return bad
+    # the expected count is zero: a built-in positive and negative example keep the matcher honest
+    def set_parents(t):
+        for node in ast.walk(t):
+            for child in ast.iter_child_nodes(node):
+                child._parent = node
+    pos = ast.parse('from itertools import groupby\ndef f(xs, k):\n    return dict((a, list(g)) for a, g in groupby(xs, key=k))\n')
+    neg = ast.parse('import itertools\ndef f(xs, k):\n    ys = sorted(xs, key=k)\n    return [list(g) for a, g in itertools.groupby(ys, key=k)]\n')
+    set_parents(pos)
+    set_parents(neg)
+    if len(scan(pos)) != 1 or scan(neg):
+        from vt.runner import AnalysisError
+        raise AnalysisError('%s: the groupby matcher fails its built-in examples' % rule)
+    for rel in rels:
+        mod = chk.model.mod(rel, required=False)
+        if mod is None:
+            continue
+        bad = scan(mod.tree)
+        chk.ob(rule, '%s/groupby-input-sorted' % rel, not bad, where(mod, bad[0]) if bad else rel,
+               'groupby(%s) groups adjacent items only and its input is not sorted by the grouping key: items with the '
+               'same key that are not next to each other end up in separate groups' % (norm(bad[0].args[0])[:40] if bad and bad[0].args else ''))
